@@ -55,6 +55,10 @@ CLAIMS = {
          "Only the scan-coverage clause is decided: the repetition scan visits every history offset at which the position can recur (5,7,9,... from the end) and never the current entry, runs to index 0, starts counting at 1 and returns at 3; and the history it scans is pushed/popped once per make/undo, hashed consistently (C03.R4, C04.R1-R4, C02.R2, C02.R5 re-evaluated). The count for concrete histories and hash collisions are not decided.",
          "Equal hashes are taken to mean equal positions; trusts go/ssa.",
          "DESIGN.md §3 C10"),
+ "C09": ("piece-attack pairing by def-use slices, recognition of pinned-decision phis and their two ray tests, dominance of call-site preconditions, occupancy-argument analysis of king-flight tests",
+         "Structural necessary conditions: every attack pattern in IsCheckmate/IsStalemate/Attackers/Block/IsAttacked is paired with the piece kinds and pawn colour geometry dictates; every pinned decision is taken from a diagonal AND a lateral test on the same simulated occupancy from the king's square against the opponent; IsCheckmate/IsStalemate are called only with their in-check precondition established; king flights are tested with the king removed from the occupancy. Agreement of the case analysis with move generation for concrete positions is not decided.",
+         "Trusts go/ssa.",
+         "DESIGN.md §3 C09, §3.0"),
 }
 
 NOT_YET = "no static rule of DESIGN.md §3 for this property is built in this revision yet; not claimed"
